@@ -190,7 +190,7 @@ def confProxy (st : St) (res : RouteResult) (okStatus : String) : String :=
     if st.ups.contains routed then okStatus ++ " - sel=" ++ hexEnc routed ++ " stamp=" ++ hexEnc routed
     else "502 no_available_upstreams sel=" ++ hexEnc routed ++ " stamp=-"
 
-def step (st : St) : List String → St × String
+def stepCore (st : St) : List String → St × String
   | "cfg" :: owner :: hm :: rs :: ec :: jw :: aud :: iss :: ddoe :: via =>
     match parseJwks jw with
     | none => (st, "bad-op")
@@ -339,6 +339,13 @@ def step (st : St) : List String → St × String
           | .inr _ => (st, "conf 404 - reg=none")))
     | _, _ => (st, "bad-op")
   | _ => (st, "bad-op")
+
+/-- `httpf`/`tcpf` are `http`/`tcp` with a client-supplied `x-piko-forward: true` header: the
+header is not an authority — the token's endpoint confinement is checked all the same -/
+def step (st : St) : List String → St × String
+  | "httpf" :: rest => stepCore st ("http" :: rest)
+  | "tcpf" :: rest => stepCore st ("tcp" :: rest)
+  | ws => stepCore st ws
 
 def engine : Engine := { σ := St, init := default, step := step }
 
